@@ -215,6 +215,18 @@ def ellipsoid_points(rng, n, axes=None):
     return (np.array(icosahedron()) * np.array(axes)).tolist()
 
 
+def ellipsoid_points_fast(rng, n):
+    """n points on an ellipsoid on a jittered spiral (well separated, generic)."""
+    axes = [rng.uniform(0.7, 1.5) for _ in range(3)]
+    pts = []
+    for k in range(n):
+        z = 1 - 2 * (k + 0.5) / n
+        r = math.sqrt(max(0.0, 1 - z * z))
+        phi = k * math.pi * (3 - 5 ** 0.5) + rng.uniform(-0.02, 0.02)
+        pts.append([axes[0] * r * math.cos(phi), axes[1] * r * math.sin(phi), axes[2] * z])
+    return pts
+
+
 CONVEX3D = {
     "cube": lambda rng: cube(),
     "box": lambda rng: box(rng.uniform(0.5, 2), rng.uniform(0.5, 2), rng.uniform(0.5, 2)),
@@ -508,7 +520,7 @@ def gen_base(rng, cls, family=None, allow_scramble=False, allow_invalid_faces=Fa
             base["radius"] = 0.0 if rng.chance(0.25) else size * rng.uniform(0.05, 0.6)
         return base
     if cls in CURVED:
-        s = 10 ** rng.uniform(-2, 2)
+        s = place_kw.get("scale") or 10 ** rng.uniform(-2, 2)
         offd = rng.choice([0.0, 1.0, 10.0])
         c = (np.array(rng.unit_vector(3)) * offd * 2 * s)
         if cls in ("Circle", "Ellipse"):
